@@ -2,6 +2,7 @@ package main
 
 import (
 	"bytes"
+	"encoding/hex"
 	"fmt"
 	"sort"
 	"strings"
@@ -414,6 +415,26 @@ func (s *bitcoinStream) Gen(r *tr.Rng) *tr.Op {
 		} else {
 			s.push(tr.NewOp("dequeue/commit="+tr.B(r.Chance(70)), "btc.dequeue", "commit", tr.B(r.Chance(70))))
 		}
+	}
+	if r.Chance(6) {
+		// what the node hands out for the CURRENT relayer key: the DepositAddress query
+		evm := fmt.Sprintf("0x%x", s.evms[r.Intn(len(s.evms))])
+		cls := "query/deposit-address"
+		switch r.Intn(8) {
+		case 0:
+			evm, cls = evm[:len(evm)-2], cls+"/short-evm"
+		case 1:
+			evm, cls = evm[2:], cls+"/no-0x"
+		case 2:
+			evm, cls = "0x"+strings.ToUpper(evm[2:]), cls+"/upper-hex"
+		}
+		ver := tr.Pick(r, 0, 0, 1, 1, 2)
+		cur := s.cur()
+		s.keyOracles(cur)
+		if raw, err := hex.DecodeString(strings.TrimPrefix(evm, "0x")); err == nil && len(raw) == 20 && cur.Kind == "1" {
+			s.oracle("tweak", "in", tr.Hex(append(append([]byte{}, cur.Pub...), raw...)), "out", tr.Hex(keys.Tweak(cur.Pub, raw)))
+		}
+		s.push(tr.NewOp(fmt.Sprintf("%s/v%d-k%s", cls, ver, cur.Kind), "q.depositaddr", "version", ver, "evm", evm))
 	}
 	if len(s.q) == 0 {
 		s.push(tr.NewOp("dump", "dump.btc"))
